@@ -727,12 +727,12 @@ func c04DeleteBatches(r *core.Run, p *core.Program) {
 				nFull++
 				okCnt := false
 				for _, dc := range cs {
-					bo, isB := dc.If.Cond.(*ssa.BinOp)
-					if !isB || bo.Op != token.EQL || !dc.True {
+					cx, cy, rel, isB := dc.Cmp()
+					if !isB || rel != token.EQL {
 						continue
 					}
-					if k, isK := an.ConstOf(bo.Y); isK {
-						if _, isPhi := bo.X.(*ssa.Phi); isPhi {
+					if k, isK := an.ConstOf(cy); isK {
+						if _, isPhi := cx.(*ssa.Phi); isPhi {
 							if k.Int64()+1 == w.Int64() {
 								okCnt = true
 							} else {
@@ -761,8 +761,11 @@ func c04DeleteBatches(r *core.Run, p *core.Program) {
 				nRest++
 				okRest := false
 				for _, dc := range cs {
-					if strings.HasSuffix(dc.Cond, " > 0)") && dc.True {
-						okRest = true
+					// "counter > 0" in whichever form: > 0, != 0, >= 1, or the negations with exchanged branches
+					if _, cy, rel, okc := dc.Cmp(); okc {
+						if k, isK := an.ConstOf(cy); isK && ((k.Sign() == 0 && (rel == token.GTR || rel == token.NEQ)) || (k.Int64() == 1 && rel == token.GEQ)) {
+							okRest = true
+						}
 					}
 				}
 				if !okRest {
